@@ -259,7 +259,7 @@ func (propC19) InputType() string { return "C19Run.input" }
 func (propC19) ObsType() string   { return "C19Run.obs" }
 func (propC19) Exhaustive(string) bool { return false }
 func (propC19) Rule() string {
-	return "queries from the engine grammar over tables of 0-6 rows (unique id, nested arrays with unique element ids, group keys, a second table for joins, arrays of arrays) with the fault-injecting function FAULT(tag, x) placed in every clause position: WHERE (comparison, AND/OR operand, raw boolean), select list (plain, inside arithmetic, two sites), CASE condition and branches, HAVING and grouped select list, CTE body (single, chained, used twice), derived table, select-list subquery, EXISTS, IN-subquery, UNION branches, argument of another call, inner dimension of a multi-dimensional FROM, select list over a join, the ON clause of a join (all strategies), SCOPED/ONCE qualifiers, and compositions two to three levels deep, decorated with ORDER BY / LIMIT / DISTINCT; per query: one fault-free recording run, then for every invocation index k (all k up to the cap, otherwise spread over 1..n) one run with the k-th invocation returning an error and one with it panicking (string, error value, runtime error); observable per run: (rows, error) must be (none, error), and after every run three follow-up queries on the same document must answer as on a pristine deep copy and the document must be deep-equal to it; the model is run fault-free (result must equal the observed rows) and once per distinct (tag, x) trigger pair in both variants (must be Err); RAISE / RAISE_WHEN(id = v) per row and planted type errors (non-boolean WHERE/HAVING/CASE condition, non-numeric arithmetic operand in one row, non-boolean ON operand) with the expected outcome known by construction, including rows that are filtered out before the failing clause; non-trivial = the fault-free run succeeds and performs at least one invocation (fault) / the planted failure is on an evaluated row (raise, typeerr)"
+	return "queries from the engine grammar over tables of 0-6 rows (unique id, nested arrays with unique element ids, group keys, a second table for joins, arrays of arrays) with the fault-injecting function FAULT(tag, x) placed in every clause position: WHERE (comparison, AND/OR operand, raw boolean), select list (plain, inside arithmetic, two sites), CASE condition and branches, HAVING and grouped select list, CTE body (single, chained, used twice), derived table, select-list subquery, EXISTS, IN-subquery, UNION branches, argument of another call, inner dimension of a multi-dimensional FROM, select list over a join, the ON clause of a join (all strategies), SCOPED/ONCE qualifiers, and compositions two to three levels deep, decorated with ORDER BY / LIMIT / DISTINCT; per query: one fault-free recording run, then for every invocation index k (all k up to the cap, otherwise spread over 1..n) one run with the k-th invocation returning an error and one with it panicking (string, error value, runtime error); observable per run: (rows, error) must be (none, error), and after every run three follow-up queries on the same document must answer as on a pristine deep copy and the document must be deep-equal to it; the model is run fault-free (result must equal the observed rows) and once per distinct (tag, x) trigger pair in both variants (must be Err); RAISE / RAISE_WHEN(id = v) per row and planted type errors (non-boolean WHERE/HAVING/CASE condition, non-numeric arithmetic operand in one row, non-boolean ON operand) with the expected outcome known by construction, including rows that are filtered out before the failing clause; non-trivial = the fault-free run succeeds and performs at least one invocation (fault) / the planted failure is on an evaluated row (raise, typeerr); further streams (r4_c19.go): arithmetic over two column (or literal) operands with the value kinds of one planted row drawn from {number, NULL, missing, text, boolean, object, array} squared x all 11 operators x select / WHERE / filtered-out / CTE / derived / row-scoped subquery / nested arithmetic, expected outcome by construction (left to right: NULL short-circuits, any other non-number is an error); ASYNC / SPIN / SPINASYNC calls of identity functions whose synchronously evaluated ARGUMENT holds the failure source (FAULT at every k, nested FAULT, FAULT inside arithmetic or a row-scoped subquery, RAISE, RAISE_WHEN, type error), top level / derived table / CTE body; the model is given what the qualified select item denotes for its row (c19ModelView)"
 }
 
 // ---------- generators ----------
@@ -633,6 +633,10 @@ func (propC19) Generate(r *Rand, tier string) []Case {
 		d := c19GenDoc(r, 5)
 		out = append(out, c19TypeCase(r, d, cap))
 	}
+	// 6. further dedicated streams, registered from their own files (r4_c19.go)
+	for _, f := range extraStreams["C19"] {
+		out = append(out, f(r, tier)...)
+	}
 	return out
 }
 
@@ -954,7 +958,13 @@ func c19Observe(in c19In) (Observed, error) {
 	if in.Expect != nil {
 		expect = "(Some " + coqBool(*in.Expect) + ")"
 	}
-	coqIn := "(false, " + coqValue(anyMap(in.Doc)) + ", " + in.Q.Coq() + ", " + coqList(trigs) + ", " + expect + ", " + coqBool(in.Multiset) + ")"
+	// the model has no goroutines: a select item that is an ASYNC / SPIN / SPINASYNC call of an identity function is
+	// handed to the model as what it denotes for the row (see c19ModelView in r4_c19.go); every other query unchanged
+	mq, rewritten := c19ModelView(in.Q)
+	if rewritten {
+		tags = append(tags, "model-view:qualified-item-rewritten")
+	}
+	coqIn := "(false, " + coqValue(anyMap(in.Doc)) + ", " + mq.Coq() + ", " + coqList(trigs) + ", " + expect + ", " + coqBool(in.Multiset) + ")"
 	coqObs := "(" + c19Outcome(free) + ", " + coqBool(freeUsable) + ", " + coqList(runs) + ")"
 	note := map[string]any{"sql": sql, "free": map[string]any{"class": free.Class, "err": free.Err, "rows": jsonSafe(anySlice(free.Rows)), "usable": freeUsable, "why": why},
 		"invocations": n, "runs": notes}
